@@ -366,7 +366,9 @@ func VerifC10Origin() {
 		"map(. + 1)", "map(. + 1) | .[]", "{\"m\": .} | to_entries | .[] | .value", "with_entries(.)", "{\"a\": 1} | keys", "any", ".[0] + 1", ".[0] == 1", ".[0] // 5", "[.[] | select(. == 1)]",
 		"group_by(.) | .[]", "(.[0] | tostring)", "path", ".[0] | path", "{\"a\": .[0]} | pick([\"a\"])", "{\"a\": .[0]} | omit([\"b\"])", "{\"a\": .[0]} | to_entries | from_entries",
 		// literals and what is computed from them only: evaluated for a document, they are results of that document
-		"5", "\"x\"", "true", "null", ".[7] // \"d\"", "\"v\\(.[0])\"", "[1, 2]", "{\"k\": 1}", "1 + 2", ".[] | \"s\"", "[\"a\", \"b\"] | .[]", "5 as $x | $x"}
+		"5", "\"x\"", "true", "null", ".[7] // \"d\"", "\"v\\(.[0])\"", "[1, 2]", "{\"k\": 1}", "1 + 2", ".[] | \"s\"", "[\"a\", \"b\"] | .[]", "5 as $x | $x",
+		// values decoded from text inside the expression, and values read from the environment
+		"to_yaml | from_yaml", "\"a: 1\" | from_yaml", ".[0] | tostring | from_yaml", "\"YQ==\" | @base64d", "\"x%20y\" | @urid", "strenv(NOT_SET)", "\"a,b\\n1,2\" | from_csv", "to_yaml | from_yaml | .[0]"}
 	which := verifChoice("expr", len(exprs))
 	d, f := verifChoice("doc", 3), verifChoice("file", 3)
 	names := []string{"f0.yml", "dir/f1.yml", "f2.yaml"}
